@@ -976,10 +976,9 @@ func cvbC11(c *ctx) {
 	// Responses that net/http's parser refuses (DebugDialer's prefetch falls back to "all bytes read"): delivered
 	// in one piece and with nothing behind them, so that "the response bytes" are not in doubt.
 	//
-	// EXCLUDED (open defect, see corpus/C11-covB-open.cases and the report of branch wt-covB): a response the
-	// DIALER ACCEPTS but net/http refuses (HTTP/1.10, a header line with an empty name such as ": v", …) that is
-	// followed by frames, or that arrives in more than one read: DebugDialer then loses the frames / reports
-	// only the first segment.  Such templates must not get trailing bytes or a chunking here until that is decided.
+	// Regression note (defect F22, fixed in /repo): a response the DIALER ACCEPTS but net/http refuses (HTTP/1.10,
+	// a header line with an empty name such as ": v") followed by frames, or arriving in more than one read, made
+	// DebugDialer lose the frames / report only the first segment. These inputs are generated below.
 	for _, t := range []string{
 		"garbage\r\n\r\n",
 		"HTTP/1.1 40 short\r\n\r\n",
@@ -992,6 +991,15 @@ func cvbC11(c *ctx) {
 		for _, rb := range []int{0, 16} {
 			dbd(c, []byte(t), nil, rb, dcfg{}, true, true)
 			dbd(c, []byte(t), nil, rb, dialCfgs[1], false, true)
+			if !strings.Contains(t, " 101 ") {
+				continue // a refused, unparsable response read piecewise: "the response bytes" would be in doubt
+			}
+			// the same with frames right behind the head and/or delivered in several reads
+			tt := []byte(t + "\x81\x05hello\x81\x02yo")
+			dbd(c, tt, nil, rb, dcfg{}, true, true)
+			dbd(c, tt, []int{7, 1, 30, 2, 500}, rb, dcfg{}, false, true)
+			dbd(c, []byte(t), []int{5, 40, 3}, rb, dcfg{}, true, true)
+			dbd(c, tt, randSizes(c), rb, dialCfgs[1], true, true)
 		}
 	}
 }
@@ -1008,4 +1016,3 @@ func cvbC11(c *ctx) {
 //   wsflate/parameters.go:184 setBits panic: only for a server CONFIGURATION outside 8..15 (never from a peer's offer,
 //                                  Parse admits 8..15 only)
 //   wsutil/dialer.go:80   resLen never exceeds the buffer it was computed from
-//   wsutil/dialer.go:111  executes only on the excluded inputs above (open defect)
